@@ -8,7 +8,9 @@ from .. import e2_regex as e2
 from ..e3_rules import get_engine
 from ..e3_values import *  # noqa
 from ..e3_values import sym_mentions
-from .common import rule_construct, report_undecided, grouped_runs
+from .common import rule_construct, report_undecided, grouped_runs, runs_of, Relevant
+
+RELEVANT = Relevant()
 
 F7 = ("year", "month", "day", "hour", "minute", "DOW", "POD")
 LETTERS = [ord(c) for c in "abcdefghijklmnopqrstuvwxyzABCDEFGHIJKLMNOPQRSTUVWXYZäöüÄÖÜßéèñçøåжλ"]
@@ -17,6 +19,7 @@ NONLETTERS = [ord(c) for c in "0123456789 \t.:,;-/'_#"]
 
 def check(ctx, rep, tier):
     eng = get_engine(ctx)
+    RELEVANT.names.clear()
     rep.describe("token-bleed", "in every clock pattern (a regex-only rule whose result carries "
                  "an hour) a letter-ending token that follows digits or a blank is closed by a "
                  "letter-boundary assertion, so it cannot swallow the first letters of the next "
@@ -30,7 +33,7 @@ def check(ctx, rep, tier):
     _bleed(ctx, rep, eng)
     _mirror(ctx, rep, eng)
     _absorb(ctx, rep, eng)
-    report_undecided(rep, eng)
+    report_undecided(rep, eng, RELEVANT)
     rep.assume("not decided: the homomorphism itself (which competing reading the scorer ranks "
                "first for each token adjacency)")
 
@@ -130,16 +133,18 @@ def _bleed(ctx, rep, eng):
     for rule in ctx.rb.rules:
         if not (len(rule.pats) == 1 and rule.pats[0].kind == "regex"):
             continue
-        runs = [run for mk, run in eng.runs.items() if run.rule is rule]
+        runs = runs_of(eng, rule)
         # clock patterns: the hour is read from the text (a digit group or a number word),
         # not taken from the reference time
-        has_hour = any(p.kind == "ret" and isinstance(p.val, RefV) and
-                       isinstance(p.st.heap[p.val.oid].attrs.get("hour"), IntV) and
-                       not sym_mentions(p.st.heap[p.val.oid].attrs["hour"].sym, ("ts",))
-                       for run in runs for p in run.paths)
+        hours = [p.st.heap[p.val.oid].attrs.get("hour") for run in runs for p in run.paths
+                 if p.kind == "ret" and isinstance(p.val, RefV)]
+        hours = [h for h in hours if isinstance(h, IntV) and not sym_mentions(h.sym, ("ts",))]
+        # a fixed phrase for one fixed time (midnight) is not a clock notation
+        has_hour = bool(hours) and (any(not h.is_const() for h in hours) or len({h.lo for h in hours}) > 1)
         if not has_hour:
             continue
         n += 1
+        RELEVANT.add(rule)
         c = rule_construct(rule, "letter tails closed")
         try:
             _, P = ctx.wrapped(rule.pats[0].value)
@@ -204,7 +209,8 @@ def _mirror(ctx, rep, eng):
         for r in rules:
             roles = {i: p.value for i, p in enumerate(r.pats)}
             m = set()
-            for run in [run for mk, run in eng.runs.items() if run.rule is r]:
+            RELEVANT.add(r)
+            for run in runs_of(eng, r):
                 m |= _mapping(r, run, roles)
             maps[r.name] = m
         names = sorted(maps)
@@ -248,6 +254,7 @@ def _absorb(ctx, rep, eng):
         if not (len(rule.pats) == 2 and rule.pats[0].kind == "regex" and rule.pats[1].kind == "dim"):
             continue
         # an absorb rule returns a value of the operand's class on every path
+        RELEVANT.add(rule)
         pn = rule.params[2]
         psym = ("param", 1, pn)
         bad = None
